@@ -297,7 +297,7 @@ func randGraph(r *lib.Rng, tier string) *Case {
 	for _, k := range keys {
 		kind := randKind(r)
 		ns := kind == "lambda" && ((c.State && r.Chance(1, 4)) || r.Chance(1, 30))
-		nodes = append(nodes, Call{Op: "addnode", Key: k, Kind: kind, NeedState: ns})
+		nodes = append(nodes, Call{Op: "addnode", Key: k, Kind: kind, NeedState: ns, HK: r.Intn(4)})
 	}
 	hasSucc := map[string]bool{}
 	edge := func(a, b string) {
@@ -456,7 +456,7 @@ func injectGraph(r *lib.Rng, c *Case, keys []string) {
 		ins(Call{Op: "addnode", Key: any(), Kind: randKind(r)})
 	case "need-state":
 		c.State = false
-		ins(Call{Op: "addnode", Key: "s1", Kind: "lambda", NeedState: true})
+		ins(Call{Op: "addnode", Key: "s1", Kind: "lambda", NeedState: true, HK: r.Intn(4)})
 	case "nodekey-opt":
 		ins(Call{Op: "addnode", Key: "k1", Kind: "lambda", NodeKeyOpt: true})
 	case "end-as-start":
@@ -585,7 +585,7 @@ func randChain(r *lib.Rng, tier string) *Case {
 		switch {
 		case x < 45:
 			ns := (c.State && r.Chance(1, 4)) || r.Chance(1, 30)
-			k := Call{Op: "append", Kind: "lambda", NeedState: ns}
+			k := Call{Op: "append", Kind: "lambda", NeedState: ns, HK: r.Intn(4)}
 			if r.Chance(1, 12) {
 				k.NodeKey = []string{"x", "y"}[r.Intn(2)]
 			}
@@ -673,7 +673,7 @@ func injectChain(r *lib.Rng, c *Case) {
 		ins(Call{Op: "append", Kind: "lambda", NodeKey: []string{"node_0", "node_1", "node_2"}[r.Intn(3)]})
 	case "need-state":
 		c.State = false
-		ins(Call{Op: "append", Kind: "lambda", NeedState: true})
+		ins(Call{Op: "append", Kind: "lambda", NeedState: true, HK: r.Intn(4)})
 	case "empty-chain":
 		var out []Call
 		for _, k := range c.Calls {
@@ -759,7 +759,7 @@ func randWorkflow(r *lib.Rng, tier string) *Case {
 			kind = "subbad"
 		}
 		ns := kind == "lambda" && ((c.State && r.Chance(1, 4)) || r.Chance(1, 30))
-		g := []Call{{Op: "addnode", Key: k, Kind: kind, NeedState: ns}}
+		g := []Call{{Op: "addnode", Key: k, Kind: kind, NeedState: ns, HK: r.Intn(4)}}
 		avail := append([]string{"start"}, keys[:i]...)
 		if i > 0 && r.Chance(3, 5) {
 			avail = avail[1:]
@@ -1015,7 +1015,7 @@ func injectWorkflow(r *lib.Rng, c *Case, keys []string) {
 		ins(Call{Op: "addnode", Key: any(), Kind: "lambda"})
 	case "need-state":
 		c.State = false
-		ins(Call{Op: "addnode", Key: "s1", Kind: "lambda", NeedState: true})
+		ins(Call{Op: "addnode", Key: "s1", Kind: "lambda", NeedState: true, HK: r.Intn(4)})
 	case "trigger-opt":
 		for i := range c.Calls {
 			if c.Calls[i].Op == "compile" {
@@ -1084,8 +1084,43 @@ func randInnerCall(r *lib.Rng, id string) Call {
 	return innerCall(id, k)
 }
 
+// a call on an inner Chain / Workflow
+func randInnerCallFam(r *lib.Rng, id, fam string) Call {
+	switch fam {
+	case "chain":
+		switch x := r.Intn(100); {
+		case x < 55:
+			return innerCall(id, Call{Op: "append", Kind: []string{"lambda", "lambda", "pass"}[r.Intn(3)]})
+		case x < 70:
+			return innerCall(id, Call{Op: "parallel", Items: randItems(r, "o", r.Range(1, 2))})
+		case x < 80:
+			return innerCall(id, Call{Op: "branch", Items: randItems(r, "b", 2)})
+		}
+		return innerCall(id, Call{Op: "compile"})
+	case "workflow":
+		switch x := r.Intn(100); {
+		case x < 20:
+			return innerCall(id, Call{Op: "addnode", Key: []string{"t", "u", "s"}[r.Intn(3)], Kind: "lambda"})
+		case x < 40:
+			return innerCall(id, Call{Op: "addinput", To: []string{"t", "u"}[r.Intn(2)], From: []string{"s", "start", "t"}[r.Intn(3)], In: []string{"normal", "dep", "nodirect"}[r.Intn(3)], Fields: []string{"A"}})
+		case x < 65:
+			return innerCall(id, Call{Op: "addinput", To: "end", From: []string{"s", "t", "u"}[r.Intn(3)], In: []string{"normal", "dep"}[r.Intn(2)], Fields: []string{[]string{"A", "B"}[r.Intn(2)]}})
+		case x < 75:
+			return innerCall(id, Call{Op: "setstatic", To: []string{"s", "t", "end"}[r.Intn(3)], Fields: []string{"B"}})
+		case x < 85:
+			return innerCall(id, Call{Op: "addbranch", From: "s", Ends: []string{"t", "end"}})
+		}
+		return innerCall(id, Call{Op: "compile"})
+	}
+	return randInnerCall(r, id)
+}
+
 func randNested(r *lib.Rng, tier string) *Case {
 	c := &Case{FE: "nested", Src: "rand", State: r.Chance(1, 5)}
+	// the inner builders of a case are Graphs (replayed on the model), Chains or Workflows (judged by the oracles)
+	fam := []string{"graph", "graph", "graph", "chain", "workflow"}[r.Intn(5)]
+	kinds := map[string][]string{"graph": {"subok", "subok", "subok", "subok", "subbad"},
+		"chain": {"subchain", "subchain", "subchain", "subchainbad"}, "workflow": {"subwf", "subwf", "subwf", "subwfbad"}}[fam]
 	n := r.Range(2, 4)
 	keys := append([]string(nil), nodePool[:n]...)
 	ids := []string{"s1", "s2", "s3"}
@@ -1095,12 +1130,12 @@ func randNested(r *lib.Rng, tier string) *Case {
 		if (r.Chance(1, 2) && nSub < 3) || (i == n-1 && nSub == 0) {
 			id := ids[nSub]
 			if nSub > 0 && r.Chance(1, 6) {
-				id = used[r.Intn(len(used))] // the same inner graph under two keys
+				id = used[r.Intn(len(used))] // the same inner builder under two keys
 			} else {
 				nSub++
 				used = append(used, id)
 			}
-			c.Calls = append(c.Calls, Call{Op: "sub", Key: k, ID: id, Kind: []string{"subok", "subok", "subok", "subok", "subbad"}[r.Intn(5)]})
+			c.Calls = append(c.Calls, Call{Op: "sub", Key: k, ID: id, Kind: kinds[r.Intn(len(kinds))]})
 		} else {
 			c.Calls = append(c.Calls, Call{Op: "addnode", Key: k, Kind: []string{"lambda", "lambda", "pass"}[r.Intn(3)]})
 		}
@@ -1119,18 +1154,18 @@ func randNested(r *lib.Rng, tier string) *Case {
 		links = append(links, Call{Op: "addedge", From: keys[n-1], To: keys[0]}) // a cycle: only an all-predecessor Compile minds
 	}
 	c.Calls = append(c.Calls, shuffle(r, links)...)
-	// calls on the inner graphs before the Compile (repairs of an invalid one, duplicates, extensions)
+	// calls on the inner builders before the Compile (repairs of an invalid one, duplicates, extensions)
 	for k := r.Intn(4); k > 0; k-- {
-		c.Calls = insertAt(c.Calls, r.Range(0, len(c.Calls)), randInnerCall(r, used[r.Intn(len(used))]))
+		c.Calls = insertAt(c.Calls, r.Range(0, len(c.Calls)), randInnerCallFam(r, used[r.Intn(len(used))], fam))
 	}
 	comp := Call{Op: "compile"}
 	randOpts(r, &comp, "graph")
 	c.Calls = append(c.Calls, comp)
-	// after the Compile: the inner graphs again, the outer graph, further Compiles
+	// after the Compile: the inner builders again, the outer graph, further Compiles
 	for k := r.Range(1, 5); k > 0; k-- {
 		switch x := r.Intn(10); {
 		case x < 5:
-			c.Calls = append(c.Calls, randInnerCall(r, used[r.Intn(len(used))]))
+			c.Calls = append(c.Calls, randInnerCallFam(r, used[r.Intn(len(used))], fam))
 		case x < 7:
 			c.Calls = append(c.Calls, comp)
 		case x < 8:
@@ -1140,7 +1175,7 @@ func randNested(r *lib.Rng, tier string) *Case {
 		case x < 9:
 			c.Calls = append(c.Calls, Call{Op: "addedge", From: keys[r.Intn(n)], To: withEnd(keys)[r.Intn(n+1)]})
 		default:
-			c.Calls = append(c.Calls, Call{Op: "sub", Key: "z" + nodePool[r.Intn(2)], ID: used[r.Intn(len(used))], Kind: "subok"})
+			c.Calls = append(c.Calls, Call{Op: "sub", Key: "z" + nodePool[r.Intn(2)], ID: used[r.Intn(len(used))], Kind: kinds[0]})
 		}
 	}
 	if r.Chance(1, 3) {
